@@ -110,6 +110,19 @@ CONSOLE_MUTANTS = {
 }
 
 
+def with_past_variants(fam_specs, tier, seed):
+    """Every property holds whatever the connection did before: the first family of a check is replayed once more (thorough:
+    under each of the four orderings) on a connection with a past (GenPast.tla, script option `past`); expectations unchanged."""
+    fam_specs = list(fam_specs)
+    if not fam_specs:
+        return fam_specs
+    first = fam_specs[0]
+    variants = [seed % 4] if tier == "quick" else [0, 1, 2, 3]
+    for v in variants:
+        fam_specs.append(dict(first, name="%s-past%d" % (first["name"], v), past=v))
+    return fam_specs
+
+
 def console_check(pid, tier, seed, work, mc_cfgs, fam_specs, level_note, hs_fams=()):
     t0 = time.time()
     mcs = []
@@ -126,6 +139,7 @@ def console_check(pid, tier, seed, work, mc_cfgs, fam_specs, level_note, hs_fams
             kw = {k: v for k, v in fs.items() if k != "name"}
             return confirmed_realtime(work, lambda nm: F.handshake_family(work, name=nm, **kw), fs["name"])
         return F.handshake_family(work, **fs)
+    fam_specs = with_past_variants(fam_specs, tier, seed)
     with cf.ThreadPoolExecutor(max_workers=3) as ex:
         fams = list(ex.map(lambda fs: F.console_family(work, **fs), fam_specs))
         fams += list(ex.map(hs, hs_fams))
@@ -309,7 +323,7 @@ def hs_check(pid, tier, seed, work, fam_specs, mc=True, mutants=()):
         if not ok:
             raise vlib.Inconclusive("model mutant %s did not violate %s: the invariant is vacuous" % (cfg, inv))
         killed.append({"cfg": cfg, "violates": inv})
-    fam_specs = more_seeds(fam_specs, tier)
+    fam_specs = with_past_variants(more_seeds(fam_specs, tier), tier, seed)
     with cf.ThreadPoolExecutor(max_workers=3) as ex:
         fams = list(ex.map(lambda fs: F.handshake_family(work, **fs), fam_specs))
     require_accepted(fams)
@@ -374,7 +388,7 @@ def walk_check(pid, tier, seed, work, mcs_spec, mutants, fam_specs, rule):
             raise vlib.Inconclusive("model mutant %s did not violate %s" % (cfg, inv))
         killed.append({"cfg": cfg, "violates": inv})
     fams = []
-    for fs in more_seeds(fam_specs, tier, extra=1):
+    for fs in with_past_variants(more_seeds(fam_specs, tier, extra=1), tier, seed):
         fs = dict(fs)
         kind = fs.pop("kind", "walk")
         fams.append(F.handshake_family(work, **fs) if kind == "handshake" else F.walk_family(work, **fs))
@@ -610,6 +624,7 @@ def c07_vec(tier, seed, work):
 
 def add_walk(res, work, fam_specs, note):
     """Merge scripted-connection families (TraceWalk) into a vector check's result."""
+    fam_specs = with_past_variants(fam_specs, fam_specs[0].get("tier", "quick") if fam_specs else "quick", fam_specs[0].get("seed", 1) if fam_specs else 1)
     fams = [F.walk_family(work, **fs) for fs in fam_specs]
     require_accepted(fams)
     extra = []
@@ -628,6 +643,7 @@ def add_walk(res, work, fam_specs, note):
 
 def add_console(res, work, fam_specs, note):
     """Merge exhaustive console outcome families (TraceConsole) into a vector check's result."""
+    fam_specs = with_past_variants(fam_specs, "quick", 1 + len(fam_specs))
     with cf.ThreadPoolExecutor(max_workers=3) as ex:
         fams = list(ex.map(lambda fs: F.console_family(work, **fs), fam_specs))
     require_accepted(fams)
